@@ -294,7 +294,10 @@ fn read_data_from_stream<F: Read + Seek>(
 ) -> io::Result<usize> {
     let (start_sector, stream_len) = {
         let dir_entry = minialloc.dir_entry(stream_id);
-        debug_assert_eq!(dir_entry.obj_type, ObjType::Stream);
+        // The stream may have been removed while this handle was open.
+        if dir_entry.obj_type != ObjType::Stream {
+            return Err(io::Error::other("Stream was removed"));
+        }
         (dir_entry.start_sector, dir_entry.stream_len)
     };
     let num_bytes = if buf_offset_from_start >= stream_len {
@@ -330,7 +333,10 @@ fn write_data_to_stream<F: Read + Write + Seek>(
 ) -> io::Result<()> {
     let (old_start_sector, old_stream_len) = {
         let dir_entry = minialloc.dir_entry(stream_id);
-        debug_assert_eq!(dir_entry.obj_type, ObjType::Stream);
+        // The stream may have been removed while this handle was open.
+        if dir_entry.obj_type != ObjType::Stream {
+            return Err(io::Error::other("Stream was removed"));
+        }
         (dir_entry.start_sector, dir_entry.stream_len)
     };
     debug_assert!(buf_offset_from_start <= old_stream_len);
@@ -435,7 +441,10 @@ fn resize_stream<F: Read + Write + Seek>(
     check_stream_len(minialloc.version(), new_stream_len)?;
     let (old_start_sector, old_stream_len) = {
         let dir_entry = minialloc.dir_entry(stream_id);
-        debug_assert_eq!(dir_entry.obj_type, ObjType::Stream);
+        // The stream may have been removed while this handle was open.
+        if dir_entry.obj_type != ObjType::Stream {
+            return Err(io::Error::other("Stream was removed"));
+        }
         (dir_entry.start_sector, dir_entry.stream_len)
     };
     let new_start_sector = if old_start_sector == consts::END_OF_CHAIN {
